@@ -3,7 +3,7 @@ import collections
 import math
 
 PROP = "C03"
-LEAN_MODS = ["Cte.Props.C03"]
+LEAN_MODS = ["Cte.Props.C03", "Cte.Props.C03Win"]
 HARNESS = "c03"
 N = {"quick": 60, "thorough": 600}
 CORRESPONDENCES = ["global corner points of every wall (wall_geometry + to_global_coords_matrix) = Placement model evaluated on the source values"]
